@@ -147,7 +147,7 @@ def patterns(nbits, tier, kind_index):
     all interiors) up to the tier's length."""
     singles = [(i,) for i in range(nbits)]
     doubles = list(itertools.combinations(range(nbits), 2))
-    maxburst = 16 if (tier == "thorough" and kind_index < 2) else (8 if tier == "thorough" else 4)
+    maxburst = 16 if (tier == "thorough" and kind_index < 2) else (9 if tier == "thorough" else 5)
     bursts = []
     for ln in range(3, maxburst + 1):
         inner = ln - 2
@@ -159,9 +159,21 @@ def patterns(nbits, tier, kind_index):
 
 
 def flip(frame, base, bits):
+    """Flip the bits with the given offsets.  Offsets count in the code's own bit order - the order in
+    which the reflected CRC-16 shifts message bits through its register: bytes from ``base`` on, least
+    significant bit first, and the two check bytes low byte first although the frame carries the high
+    byte first.  Only in that order is "a burst of at most 16 bits" a pattern every CRC-16 detects;
+    consecutive bits of the byte stream as written (most significant bit first, check bytes swapped)
+    that cross two byte boundaries span up to 24 positions of the code word and carry no guarantee."""
     b = bytearray(frame)
+    n = len(frame) - base
     for k in bits:
-        b[base + k // 8] ^= 0x80 >> (k % 8)
+        j = k // 8
+        if j == n - 2:
+            j = n - 1            # low check byte: second to last position of the code word, last byte of the frame
+        elif j == n - 1:
+            j = n - 2
+        b[base + j] ^= 1 << (k % 8)
     return bytes(b)
 
 
